@@ -19,7 +19,7 @@ const (
 	kConstNames = "K-C05-4"
 )
 
-var loopVarName = regexp.MustCompile(`^(lv[0-9]+|i|j|k|w|lv)$`)
+var loopVarName = regexp.MustCompile(`^(lv[0-9]+|kv[0-9]+|i|j|k|w|lv)$`) // (kvN: map loops, which run as counted loops when the generated operand turns out to be an integer at run time)
 
 // ignoreGlobal: while K-C05-1 is listed, the loop variables themselves (fresh names lvN in generated programs,
 // i j k w lv in the hand-written loop sessions) are left out of the comparison of final globals.
